@@ -385,6 +385,7 @@ func streamsS(o [][]uint64) string {
 }
 
 var maxTicks = common.EnvInt("C06_MAXTICKS", 4000)
+var partCounter int
 
 func (c *gcase) runPart(p part, rng *common.Rng) {
 	pre := fmt.Sprintf("X %s %s ", c.id, p.id)
@@ -406,29 +407,30 @@ func (c *gcase) runPart(p part, rng *common.Rng) {
 	t0 := time.Now()
 	resD, dump := assembleOnce(src, true)
 	t1 := time.Now()
-	res, _ := assembleOnce(src, false)
-	t2 := time.Now()
 	tAsmD += t1.Sub(t0)
-	tAsm += t2.Sub(t1)
+	// the machine that is simulated comes from the debug run; every third partition (and every
+	// failing one) is assembled again without debug and must give the same machine / the same error
+	partCounter++
+	res := resD
+	if resD.err != "" || partCounter%3 == 0 {
+		plain, _ := assembleOnce(src, false)
+		tAsm += time.Since(t1)
+		same := plain.err == resD.err
+		if same && plain.bm != nil && resD.bm != nil {
+			same = fmt.Sprint(programLines(resD.bm), bondList(resD.bm)) == fmt.Sprint(programLines(plain.bm), bondList(plain.bm))
+		}
+		if same {
+			out.Line("%sdbgsame 1", pre)
+		} else {
+			out.Line("%sdbgsame 0 debug-run:%s plain-run:%s", pre, errClass(resD.err), errClass(plain.err))
+		}
+		res = plain
+	}
 	if res.err != "" {
 		out.Line("%sasm %s", pre, errClass(res.err))
-		if resD.err != res.err {
-			out.Line("%sdbgsame 0 debug-run:%s plain-run:%s", pre, errClass(resD.err), errClass(res.err))
-		}
 		return
 	}
 	out.Line("%sasm ok", pre)
-	if resD.bm == nil {
-		out.Line("%sdbgsame 0 debug-run:%s plain-run:ok", pre, errClass(resD.err))
-	} else {
-		a := fmt.Sprint(programLines(resD.bm), bondList(resD.bm))
-		b := fmt.Sprint(programLines(res.bm), bondList(res.bm))
-		if a == b {
-			out.Line("%sdbgsame 1", pre)
-		} else {
-			out.Line("%sdbgsame 0 machines-differ", pre)
-		}
-	}
 	if parseComposerDump(dump, &resD) {
 		for ci, cp := range p.cps {
 			rom := resD.cpRom[cp.name]
